@@ -174,9 +174,49 @@ INFO = {
     "C19-m8": ("C19", "data buffer aliases the parser's slice and slots are nil-ed as they are popped", "a skip=true parser answering several units with one and the same slice of >= 2 items"),
     "C20-m7": ("C20", "detected packet size written back into the option, so detection is skipped after Rewind", "auto-detection, a corrupted first sync byte, >= 2 calls before the Rewind"),
     "C20-m8": ("C20", "reader errors latched in the Demuxer and not cleared by Rewind", "a seekable reader failing once before the Rewind"),
+    # round 7 (all twenty properties; the brief asked for interactions of two features, limits of ranges, rare fields and variants)
+    "C01-m9": ("C01", "null-PID packets discarded before accumulation", "an elementary stream on the explicit PID 0x1fff"),
+    "C01-m10": ("C02", "end-of-stream flush stops at the first dumped PID that yields no data (asked for C01; same slip as C02-m8)", "a CAT packet written with WritePacket, or any PID yielding nothing, below the PES PIDs"),
+    "C02-m9": ("C02", "parsePSISection no longer seeks to the section end", "a table the library does not decode (TDT, BAT, ...) before a decoded one in the same unit"),
+    "C02-m10": ("C02", "isUnknown excludes table id 0x6f from the EIT range", "an EIT section with table_id 0x6f: it and the sections after it are dropped"),
+    "C03-m9": ("C03", "PAT programs slice pre-allocated with a capacity computed from section_length", "a PAT with section_length 1..5: negative capacity, makeslice panic"),
+    "C03-m10": ("C03", "isPSIComplete fast path reads the first payload byte without checking there is one", "a packet flagged with payload but carrying none, first in its accumulator on PID 0 or a PMT PID"),
+    "C04-m9": ("C04", "adaptation extension byte counts for LTW (2) and piecewise rate (3) swapped", "an extension with exactly one of the two"),
+    "C04-m10": ("C04", "calcPacketAdaptationFieldLength returns a non-zero Length as it is", "an adaptation field struct whose derived Length is stale, with stuffing added by WriteData"),
+    "C05-m9": ("C05", "one-byte stuffing adaptation field counted as 2 bytes", "a unit whose last packet has exactly one spare byte: counter consumed, packet refused"),
+    "C05-m10": ("C05", "duplicate-PID check only looks at the last stream of the list", "a redundant Add of an older stream's PID: its context (counter) is replaced"),
+    "C06-m9": ("C06", "duplicate test skipped for packets with zero payload bytes", "a duplicate of a packet flagged with payload whose adaptation field leaves no payload byte, inside a unit"),
+    "C06-m10": ("C06", "continuity gap computed without the +16 correction", "a lost run containing the packet with counter 15"),
+    "C07-m9": ("C20", "PAT programme 0 (network PID) enters the programme map (asked for C07; whether a demuxer follows network_PID is not fixed by the properties, what breaks is Rewind - same slip as C20-m6)", "a PAT with a programme-0 entry naming a PID of its own"),
+    "C07-m10": ("C07", "ISO 639 descriptor Language parsed without copy (output of one PID overwritten by units of another)", "a PMT with a language descriptor kept while other PIDs' units are parsed"),
+    "C08-m9": ("C08", "bufio fast path peeks a whole packet", "explicit packet size and a bufio.Reader whose buffer is smaller than the packet"),
+    "C08-m10": ("C08", "detection window taken from a pool without clearing it", "an input of 188..192 bytes after a stream of another record size was detected in the process"),
+    "C09-m9": ("C13", "parsePSISection moves to offsetSectionsEnd + 4 (asked for C09: no corrupted table gets through; a valid table after a CRC-less one is not decoded - C13's subject, close to C13-m4)", "TDT then TOT, BAT then SDT in one unit"),
+    "C09-m10": ("C02", "isPSIComplete: > instead of >= (asked for C09; same slip as C13-m8)", "a PAT/PMT unit filling its packets exactly"),
+    "C10-m9": ("C10", "checksum callback installed only when section_syntax_indicator is set", "a PAT/PMT section struct written with SectionSyntaxIndicator false"),
+    "C10-m10": ("C10", "slicing-by-4 fast path skips len%4 leading bytes", "a piece of >= 128 bytes whose length is not a multiple of 4"),
+    "C11-m9": ("C19", "skipped packet's struct reused without resetting the adaptation field (asked for C11; needs a PacketSkipper - C19's subject, same slip as C19-m7)", "a skipped packet with an adaptation field followed by a kept one without"),
+    "C11-m10": ("C11", "extension body read only when its length is > 1", "adaptation extension with none of its optional parts (length 1)"),
+    "C12-m9": ("C12", "ClockReference.Duration through float64 seconds", "bases that are multiples of 9: 1 ns short"),
+    "C12-m10": ("C12", "extension-2 parsing nested inside the P-STD block", "PES extension with extension 2 but no P-STD buffer"),
+    "C13-m9": ("C13", "parseDescriptors drops a zero-length descriptor that closes a loop", "an empty descriptor in the last position of a loop"),
+    "C13-m10": ("C17", "generatePMT reuses the cached PMT packet until a stream is added or removed (asked for C13; the stale PCR PID is C17's 'always current')", "SetPCRPID between two emissions without Add/Remove"),
+    "C14-m9": ("C14", "supplementary audio private data only counted when there is a language code", "extension descriptor 0x7f/0x06 without language code and with private data"),
+    "C14-m10": ("C14", "writeDescriptor returns before writing tag and length when the body is empty", "any descriptor with an empty body"),
+    "C15-m9": ("C15", "writeDVBTime leap test year%4 == 0", "dates of 1900 (MJD 15079..15384)"),
+    "C15-m10": ("C15", "parseDVBTime treats MJD 0xffff as the undefined time", "the last MJD, 65535"),
+    "C16-m9": ("C16", "pooled buffer of capacity exactly 65536 both put back and aliased by PES.Data", "a unit of 56..64 KiB, then any later PES"),
+    "C16-m10": ("C16", "isPSIComplete puts the pooled buffer back twice when a section header is cut by the packet end", "pointer_field 181/182 on a PAT/PMT PID and >= 2 demuxers at work"),
+    "C17-m9": ("C17", "PMT PID test moved out of the skip loop of automatic PID assignment", "automatic counter at 0x1000 and an explicit stream on 0x1001"),
+    "C17-m10": ("C17", "PMT version counter created with a 4-bit mask", ">= 16 content changes each followed by an emission"),
+    "C18-m9": ("C18", "PCR and OPCR writes share one error variable", "adaptation field with PCR and OPCR, writer failing once on a PCR byte"),
+    "C18-m10": ("C18", "n == 0 -> ErrNoMorePackets tested before the reader's error", "auto-detection and a reader failing before delivering any byte"),
+    "C19-m9": ("C19", "null-PID packets discarded before accumulation: the parser never sees their unit", "a parser installed and null packets carrying a payload"),
+    "C20-m9": ("C20", "end-of-stream dump cached in a Demuxer field that Rewind does not reset", ">= 2 PIDs pending at the end and a Rewind in the middle of the end-of-stream drain"),
+    "C20-m10": ("C20", "Rewind re-initialises the Demuxer from a literal that omits the skipper", "DemuxerOptPacketSkipper and any Rewind"),
 }
 REVERTS = {
-    "R01": "C12", "R02": "C14", "R03": "C14", "R04": "C18", "R05": "C17", "R06": "C04", "R07": "C11", "R08": "C05", "R09": "C06",
+    "R01": "C12", "R02": "C14", "R03": "C14", "R04": "C18", "R05": "C17", "R06": "C04", "R07": "C11", "R08": "C05", "R09": "C06", "R13": "C08",
     "R10": "C05", "R11": "C03", "R12": "C05",
 }
 
